@@ -1395,7 +1395,11 @@ class Tensor:
         """
         # Ensure that these old and new rank_ids are permutations of each other
         old_rank_ids = self.getRankIds()
-        assert sorted(old_rank_ids) == sorted(rank_ids)
+        # Rank ids may be strings or (for flattened ranks) lists, which do
+        # not sort together
+        assert len(old_rank_ids) == len(rank_ids) \
+            and all(rank_id in old_rank_ids for rank_id in rank_ids) \
+            and all(rank_id in rank_ids for rank_id in old_rank_ids)
 
         old_name = self.getName()
         copied = copy.deepcopy(self)
@@ -1421,7 +1425,8 @@ class Tensor:
         frontier = [(copied.getRoot(), None, None, -1)]
         frontier_coords = [None] * swiz_len
 
-        ranges = {rank: set() for rank in old_rank_ids}
+        # (the id of a flattened rank is a list, so use its string as key)
+        ranges = {str(rank): set() for rank in old_rank_ids}
 
         # Depth-first search through the fibertree and extract the coordinate
         # payload pairs
@@ -1431,7 +1436,7 @@ class Tensor:
                 frontier_coords[depth] = coord
 
             if parent is not None:
-                ranges[parent.getRankAttrs().getId()].add(parent.getActive())
+                ranges[str(parent.getRankAttrs().getId())].add(parent.getActive())
 
             # If this is the last point we need to swizzle, save the payload
             if depth == swiz_len - 1:
@@ -1497,7 +1502,7 @@ class Tensor:
         while frontier:
             fiber = frontier.pop()
             rank = fiber.getRankAttrs().getId()
-            rank_ranges = ranges[rank]
+            rank_ranges = ranges[str(rank)]
 
             if not fiber.isEmpty() and rank_ranges:
                 starts = [range_[0] for range_ in rank_ranges if range_[0] <= fiber.coords[0] and range_[1] > fiber.coords[0]]
